@@ -303,7 +303,18 @@ pub fn c10_script(r: &mut Rng, _index: u64, _tier: Tier) -> (CaseCfg, Vec<Step>)
             broker: BrokerPolicy { acks: AckMode::Immediate, ping: AckMode::Immediate, fail_pct: 0, longform_pct: 0 },
             cancel_at: None,
         }));
-        s.push(Step::Poll { max_wait: 1 + r.below(3_000_000) as u64, cancel_at: None });
+        // one of those in three ends while its own PINGREQ is queued and not yet written (the
+        // transport pends, the waiting poll() is given up): a PINGREQ belongs to the connection
+        // that owed it, whatever keep-alive the next connection has
+        if prior > 0 && r.chance(1, 3) {
+            if let Some(Step::Connect(c)) = s.last_mut() {
+                c.policy = IoPolicy { pend_write: Pend::Always, ..IoPolicy::default() };
+            }
+            let pe = prior as u64 * 1_000_000;
+            s.push(Step::Poll { max_wait: pe - 5_000_000u64.min(pe / 2) + 1, cancel_at: Some(2) });
+        } else {
+            s.push(Step::Poll { max_wait: 1 + r.below(3_000_000) as u64, cancel_at: None });
+        }
         s.push(match r.below(3) {
             0 => Step::DropConn,
             1 => Step::Disconnect(DiscSpec { reason: None, props: None, cancel_at: None }),
@@ -580,6 +591,39 @@ pub fn c04_script(r: &mut Rng, index: u64, _tier: Tier) -> (CaseCfg, Vec<Step>) 
         }
         return (cfg, s);
     }
+    if index % 12 == 7 {
+        // an earlier connection of the session had a broker with a tiny Maximum Packet Size (or
+        // other restrictions); the current CONNACK announces none: inbound QoS 1 / QoS 2 traffic
+        // is delivered and acknowledged as on any connection
+        let cfg = CaseCfg { rx: 128, tx: 512, keepalive: 0, ..CaseCfg::default() };
+        let mut props = vec![Prop::MaximumPacketSize(*r.pick(&[1u32, 2, 3, 4, 6])), Prop::ReceiveMaximum(1), Prop::MaximumQoS(0)];
+        r.shuffle(&mut props);
+        props.truncate(1 + r.below(3));
+        let mut s = vec![connect_with(SpMode::Force(false), AckMode::Hold, props)];
+        s.push(poll0());
+        s.push(match r.below(3) {
+            0 => Step::DropConn,
+            1 => Step::Disconnect(DiscSpec { reason: None, props: None, cancel_at: None }),
+            _ => Step::Broker(BrokerAct::Close),
+        });
+        s.push(poll0());
+        s.push(Step::DropConn);
+        s.push(connect_with(SpMode::Force(r.chance(1, 2)), AckMode::Hold, vec![]));
+        let pid = *r.pick(&[1u16, 9, 65535]);
+        for k in 0..3u16 {
+            let qos = 1 + r.below(2) as u8;
+            let id = pid.wrapping_add(k).max(1);
+            s.push(Step::Broker(BrokerAct::Send(SPacket::Publish { dup: false, qos, retain: false, topic: "in".into(), pid: Some(id), props: vec![], payload: vec![k as u8; 3] })));
+            s.push(poll0());
+            s.push(poll0());
+            if qos == 2 {
+                s.push(Step::Broker(BrokerAct::Send(SPacket::PubRel { pid: id, reason: None, props: None })));
+                s.push(poll0());
+                s.push(poll0());
+            }
+        }
+        return (cfg, s);
+    }
     if index % 12 == 1 {
         // an inbound PUBLISH on either side of the three-byte / four-byte remaining-length boundary
         // (2 MiB), in a receive buffer that holds it: delivered verbatim and acknowledged
@@ -786,6 +830,36 @@ pub fn c07_flush_fault_script(r: &mut Rng, _index: u64, _tier: Tier) -> (CaseCfg
     s.push(poll0());
     s.push(Step::Broker(BrokerAct::Release { n: 99, order: Order::Fifo }));
     for _ in 0..8 {
+        s.push(poll0());
+    }
+    (cfg, s)
+}
+
+/// C06: the transport takes every byte of a QoS 1/2 PUBLISH and fails right afterwards (on the
+/// flush): the broker has the packet, the caller got an error. On the resumed connection the
+/// packet still occupies a slot of the broker's window, whatever the client remembers of it.
+pub fn c06_flush_fault_script(r: &mut Rng, _index: u64, _tier: Tier) -> (CaseCfg, Vec<Step>) {
+    let cfg = CaseCfg { rx: 128, tx: 2048, keepalive: 0, ..CaseCfg::default() };
+    let rm = *r.pick(&[1u16, 2, 3, 5]);
+    let mut s = vec![connect_with(SpMode::Force(false), AckMode::Hold, vec![Prop::ReceiveMaximum(rm)])];
+    let before = r.below(rm as usize);
+    for k in 0..before {
+        s.push(pubq(1 + r.below(2) as u8, "w", k as u32, 3));
+    }
+    // the n-th flush of this connection: connect() used the first, every publish so far one more
+    s.push(Step::Io { policy: None, faults: vec![FaultPlan { at: FaultAt::Flush(1 + before), kind: FaultKind::Error(*r.pick(&[ErrKind::ConnectionReset, ErrKind::BrokenPipe, ErrKind::TimedOut])) }] });
+    s.push(pubq(1 + r.below(2) as u8, "lost/flush", 77, 4));
+    s.push(Step::DropConn);
+    // the same window (or another one) on the resumed connection; acknowledgements withheld
+    let rm2 = if r.chance(1, 2) { rm } else { *r.pick(&[1u16, 2, 4]) };
+    s.push(connect_with(SpMode::Force(true), AckMode::Hold, vec![Prop::ReceiveMaximum(rm2)]));
+    s.push(poll0());
+    for k in 0..rm2 as usize + 2 {
+        s.push(pubq(1 + r.below(2) as u8, "new", 100 + k as u32, 2));
+        s.push(poll0());
+    }
+    s.push(Step::Broker(BrokerAct::Release { n: 99, order: Order::Fifo }));
+    for _ in 0..6 {
         s.push(poll0());
     }
     (cfg, s)
